@@ -18,7 +18,8 @@ EXPLANATION = (
     ' (6b) everything reachable from the Accessible::get implementations of request / target / source is a method of the address value itself and no address-rewriting std call occurs there; v6->v4 normalisation anywhere in the crate uses to_ipv4_mapped, never the lossy to_ipv4.'
     " (6c) udp-target: in the direct connector's UDP writer a destination other than the session target is chosen only under `session target is unspecified`; the first-match search may also be spelled as a for loop with break."
     ' LAZY: the builtins the language documents as lazily evaluated (&&, ||, if) keep one deciding operand whose evaluation dominates the others, and every other operand can be bypassed on a successful path (a strict && turns `guard && partial` into a filter that fails, i.e. a rule that does not match).'
-    ' host-with-port: what the `host` arm of an attribute getter calls renders an IP address or the stored name, never a whole socket address.')
+    ' host-with-port: what the `host` arm of an attribute getter calls renders an IP address or the stored name, never a whole socket address.'
+    ' HDR: the header lookups of the HTTP codec compare names without regard to case (the feature of a request is read from its Proxy-Protocol header).')
 RULE_TEXT = "instances = dominance queries, call sites and table rows listed above"
 TRUSTED = ["cidr::AnyIpCidr::contains implements CIDR containment", "milu evaluator computes the filter's value (C08 covers soundness only)"]
 NOT_DECIDED = ["CIDR arithmetic itself", "that the evaluator computes the mathematical value of a filter"]
@@ -106,11 +107,44 @@ def _loop_search(prog, f):
     return (True, _LoopSel(out, n.bb), "first hit of evaluate() stores Some(rule.target) in `%s` and breaks; exhausted iterator leaves None" % (f.local_name(sel_local) or "_%d" % sel_local))
 
 
+
+def rule_header_lookup(chk, prog, rule="HDR"):
+    """HTTP header names are case-insensitive (RFC 9110 5.1).  The request attributes the rules see are taken from the CONNECT
+    request's headers (`Proxy-Protocol` selects the feature), so a lookup that compares names exactly turns `proxy-protocol: udp`
+    into a TCP request for the rules.  Sites = the header lookup functions of the HTTP codec (HttpRequest::header and its sibling
+    HttpResponse::header): each compares names with eq_ignore_ascii_case (or on case-folded copies), never with `==`."""
+    n = 0
+    for f in sorted(prog.fns.values(), key=lambda x: x.key):
+        if f.crate != "redproxy_rs" or not f.file.endswith("src/common/http.rs") or f.kind not in ("Fn", "AssocFn"):
+            continue
+        if not re.search(r"::header$", f.path):
+            continue
+        n += 1
+        bodies = [f] + prog.children(f)
+        ign = [c for g in bodies for c in g.calls if re.search(r"eq_ignore_ascii_case$", c.path or "")]
+        folded = [c for g in bodies for c in g.calls if re.search(r"to_ascii_lowercase$|to_lowercase$|to_ascii_uppercase$", c.path or "")]
+        exact = [c for g in bodies for c in g.calls if re.search(r"cmp::PartialEq::(eq|ne)$|str::traits::<impl .*PartialEq.*>::(eq|ne)$", c.path or "")
+                 and c in g.user_calls]
+        ok = bool(ign) or (len(folded) >= 2 and bool(exact))
+        if exact and not folded:
+            ok = False
+        chk.instance(rule, "%s:%s" % (f.file, f.line), "%s compares header names without regard to case" % f.path, ok,
+                     "%d eq_ignore_ascii_case, %d exact comparison(s), %d case folding(s)" % (len(ign), len(exact), len(folded)))
+        if not ok:
+            chk.finding(rule, f.key, "case-sensitive-name", "", "%s:%s" % (f.file, f.line),
+                        "%s looks a header up by exact name: a client that writes `proxy-protocol: udp` (legal HTTP) is routed as a TCP "
+                        "request - the rules, the feature check of the upstream and the deny-by-feature rules all see another request than "
+                        "the one that was made" % f.path)
+    chk.floor(rule, n, 2, "header lookup functions of the HTTP codec")
+
+
+
 def run(chk, prog):
     # which rule is "the first whose filter is true" depends on guards written with && / || / if: an operand that must be skipped and is
     # evaluated instead turns `true || <error>` into a filter that fails, i.e. into a rule that does not match
     from .c08 import rule_lazy
     rule_lazy(chk, prog, "LAZY")
+    rule_header_lookup(chk, prog)
     pr = prog.one(r"^process_request$")
     f = prog.body_of(pr)
     where = "%s:%s" % (f.file, f.line)
